@@ -4,6 +4,7 @@ import drv_config
 
 LEVEL = "model_checking"
 TO, RE, CR = [6, 1, 0], [10, 2, 0], ["v2c:a", "v2c:b", "v1:a", "v3:u", "v3:w"]
+CX = ["e1/", "/n1", "e1/n1", "/"]
 HOW = ["normal", "exc", "normal", "exc", "base", "cancel"]      # leaving a block: normally, by an Exception, by a BaseException, by a cancellation
 
 
@@ -21,6 +22,12 @@ def overrides(rnd=None):
                     kv["creds"] = c
                 if kv:
                     out.append(kv)
+    # the SNMPv3 context is a client setting like the others
+    for cx in CX:
+        out.append({"ctx": cx})
+        for c in ("v3:u", "v3:w", "v2c:b"):
+            out.append({"ctx": cx, "creds": c})
+        out.append({"ctx": cx, "timeout": 1})
     return out
 
 
@@ -73,6 +80,13 @@ def run(ctx):
             trees.append([("block", a, [("req",), ("cfg", b), ("req",)], how), ("req",)])
             trees.append([("cfg", a), ("block", b, [("req",), ("block", a, [("req",)], how), ("req",)], "normal"), ("req",)])
             trees.append([("cfg", a), ("req",), ("cfgx", b), ("req",), ("blockx", b), ("req",)])
+    # context overrides on a client that has already talked SNMPv3 (cold and warm), nested and left in every way
+    for cx in CX[:3]:
+        for how in ("normal", "exc", "cancel"):
+            for user in ("v3:u", "v3:w"):
+                trees.append([("cfg", {"creds": user}), ("req",), ("block", {"ctx": cx}, [("req",)], how), ("req",), ("req",)])
+                trees.append([("cfg", {"creds": user}), ("block", {"ctx": cx}, [("req",), ("block", {"ctx": "/n1"}, [("req",)], how), ("req",)], "normal"), ("req",)])
+                trees.append([("cfg", {"creds": user, "ctx": cx}), ("req",), ("block", {"ctx": "/"}, [("req",)], how), ("req",)])
     # blocks in which no request completes (empty, or abandoned at once): leaving them still restores everything, incl. what the client had learned
     for a in CR:
         for b in CR:
@@ -125,7 +139,7 @@ def run(ctx):
     verdicts = ctx.validate("Trace_Config", T, chunk=3000)
     ctx.judge(T, verdicts, signature=sig, nontrivial=lambda tr, v: json.dumps(tr["scenario"]["tree"]))
     ctx.rule = ("behaviours generated by TLC's simulator from Config.tla replayed with real blocks; nested histories of configure / configure with an unknown setting / reconfigure block (left normally, by an Exception, by a BaseException, by a cancellation) / reconfigure with an unknown "
-                "setting / request over timeout in {6,1,0}, retries in {10,2,0}, credentials in {V2C a, V2C b, V1 a, V3 u, V3 w}: every single override as block and as "
+                "setting / request over timeout in {6,1,0}, retries in {10,2,0}, credentials in {V2C a, V2C b, V1 a, V3 u, V3 w}, SNMPv3 context (engine id / name) in 4 values: every single override as block and as "
                 "configure, every pair of credential-family switches nested both ways (incl. configure inside a block), and seeded random trees to depth 4; "
                 "each request records the timeout / retries the sender got for every datagram (v3 discovery probes included) the number of discovery probes, and the version / community / user on the wire")
     ctx.assumptions = ["`behaves exactly as before` = same observable settings, protocol version and - for SNMPv3 - no renewed discovery if none was needed on entering the block"]
